@@ -8,7 +8,7 @@ import time
 REPO = os.environ.get('VERIF_REPO', '/repo')
 VERIF = os.path.dirname(os.path.dirname(os.path.abspath(__file__)))
 BUILD = os.path.join(VERIF, '.build')
-ENV = dict(os.environ, CARGO_NET_OFFLINE='true', RUSTFLAGS=os.environ.get('RUSTFLAGS', ''))
+ENV = dict(os.environ, CARGO_NET_OFFLINE='true')
 
 
 class BuildError(Exception):
